@@ -938,8 +938,44 @@ def run(ctx):
                                     "lock protocol were not exercised" % ev)
 
 
+def replay_cmd(ctx, c):
+    """replay of a command-table entry ({"command": name}) or of one command line's lock bracket ({"argv", "env_path"})"""
+    if "command" in c:
+        def real_table():
+            common.import_eups()
+            import eups.cmd
+            import eups.lock as lock
+            return {k: {lock.LOCK_EX: "E", lock.LOCK_SH: "S", None: None}.get(v[1], "?") for k, v in eups.cmd._cmdLookup.items()}
+        res = common.in_child(real_table)
+        real = res[1] if res[0] == "ok" else {}
+        model = {e["name"]: e for e in ctx.lean.ask({"m": "c09", "op": "cmdtable"})}
+        nm = c["command"]
+        iv = real.get(nm, "not registered")
+        mv = model[nm]["lock"] if nm in model else "not in the model"
+        return {"input": c, "impl_output": iv, "model_output": mv, "agree": iv == mv, "violations": [], "fails": []}
+    env = list(c.get("env_path") or [0])
+    nd = max([3] + [d + 1 for d in env])
+    sp = cmd_proc(0, list(c["argv"]), env)
+    case = {"procs": [sp], "sched": [], "ndirs": nd, "drain": True}
+    r = common.in_child(run_case, case)
+    r = r[1] if r[0] == "ok" else {"executed": [], "trace": [], "outcomes": [repr(r)], "residue": [], "violations": [], "error": repr(r)}
+    ca = ctx.lean.ask(cmdline_req(sp, "default"))
+    held, kinds = (r.get("held") or [None])[0], (r.get("held_kinds") or [None])[0]
+    iv = None
+    if held is not None and kinds is not None:
+        iv = {"kind": (sorted(set(kinds))[0] if len(set(kinds)) == 1 else (None if not kinds else sorted(set(kinds)))),
+              "stacks": sorted(held), "changed": r.get("stack_changed")}
+    mv = {"kind": ca.get("kind") if ca.get("stacks") else None, "stacks": sorted(ca.get("stacks", [])), "updates": ca.get("updates")}
+    agree = iv is not None and iv["kind"] == mv["kind"] and iv["stacks"] == mv["stacks"] and \
+        not (any(iv["changed"] or []) and not mv["updates"])
+    fails = [{"clause": cl, "class": k, "detail": d} for cl, k, d in oracle(case, r)]
+    return {"input": c, "impl_output": iv, "model_output": mv, "agree": agree, "violations": r["violations"], "fails": fails}
+
+
 def replay(ctx, rp):
     c = rp.get("input") or rp          # a replay file, or a corpus witness
+    if "procs" not in c:
+        return replay_cmd(ctx, c)
     case = {"procs": c["procs"], "sched": c["sched"], "base": c.get("base", "default"), "drain": True}
     if c.get("signal"):
         case["signal"] = c["signal"]
